@@ -45,6 +45,36 @@ func init() {
 			hunt[i].Opt.NoVacuity = true
 		}
 		s.Instances = append(s.Instances, hunt...)
+		// deep exchanges on sparse classes of positions (claimed): kings fixed, only the listed squares may hold other
+		// pieces (arbitrary piece and colour each). Added after seeded change C18-m3 (third knight of a colour skipped),
+		// which needs 5 captures after the initial move.
+		mask := func(sqs ...int) (m, mirrored int64) {
+			for _, q := range sqs {
+				m |= 1 << uint(q)
+				mirrored |= 1 << uint(q^56)
+			}
+			return
+		}
+		type sparse struct {
+			from, to, wk, bk int64
+			m, mm            int64
+		}
+		var sp []sparse
+		m1, mm1 := mask(17, 33, 10, 42, 12, 44, 21, 37, 3, 9, 59, 54, 18, 20, 34, 36, 27) // knight squares of d4, d1 b2 d8 g7, pawn squares c3 e3 c5 e5, d4
+		sp = append(sp, sparse{21, 27, 6, 62, m1, mm1})                                   // Nf3xd4
+		m2, mm2 := mask(4, 12, 52, 60, 18, 9, 54, 63, 27, 29, 43, 45, 21, 51, 36) // e-file battery, long diagonal, pawn and knight squares around e5
+		sp = append(sp, sparse{12, 36, 6, 57, m2, mm2})                           // Re2xe5
+		for _, c := range sp {
+			for stm := int64(0); stm < 2; stm++ {
+				p := map[string]int64{"stm": stm, "from": c.from, "to": c.to, "promo": 0, "hist": 0, "wk": c.wk, "bk": c.bk, "mask": c.m, "maxcap": 6}
+				if stm == 1 {
+					p["from"], p["to"], p["wk"], p["bk"], p["mask"] = c.from^56, c.to^56, c.bk^56, c.wk^56, c.mm
+				}
+				s.Instances = append(s.Instances, run.Instance{Pkg: "heur", Func: "VpH_C18_sparse", Params: p,
+					Opt: run.Options{LoopBound: 8, TimeoutMs: 300000}})
+			}
+		}
+		s.Bounds = append(s.Bounds, "deep exchanges (claimed): up to 6 captures after the initial move on two sparse classes of positions per side - kings fixed, 17 resp. 15 squares around the target (all knight squares, pawn squares, slider batteries) arbitrary, every other square empty; knight capture f3xd4 and rook capture e2xe5 (mirrored for Black)")
 		s.Bounds = append(s.Bounds, "counterexample search only (not claimed): the same obligation with exchanges of up to 4 captures on 12 fixed capture geometries, 90 s per query; a counterexample is replayed on the real SEE before it is reported, no answer within the budget is reported as such")
 		return s
 	}
